@@ -125,6 +125,17 @@ static void float_cases(Harness &H, const char *tn) {
         Spline<FT, 1> s(Support<FT>(g, w.s, w.e), c), a(Support<FT>(g, w.s, w.e), c1), b(Support<FT>(g, w.s, w.e), c2), z(Support<FT>(g, w.s, w.e), std::vector<std::array<FT, 2>>(w.nint(), std::array<FT, 2>{FT(0), FT(-0.0)}));
         if (s.isZero()) H.fail("isZero", std::string("isZero() is true for a spline with the non-zero coefficient ") + kn[kind]);
         if (!z.isZero()) H.fail("isZero", "isZero() is false for a spline whose coefficients are +0 and -0");
+        {
+          // +0 and -0 are the same coefficient value (they compare equal, and the splines are the same function)
+          Spline<FT, 1> zp(Support<FT>(g, w.s, w.e), std::vector<std::array<FT, 2>>(w.nint(), std::array<FT, 2>{FT(0), FT(0)})),
+              zm(Support<FT>(g, w.s, w.e), std::vector<std::array<FT, 2>>(w.nint(), std::array<FT, 2>{FT(-0.0), FT(-0.0)}));
+          if (!(zp == zm) || (zp != zm) || !(zm == z) || !(a * FT(0) == a - a)) H.fail("eq", "splines whose coefficients are +0 / -0 (equal values) compare unequal");
+          std::vector<std::array<FT, 2>> c3 = c1;
+          c3[pos / 2][pos % 2] = FT(0);
+          std::vector<std::array<FT, 2>> c4 = c3;
+          c4[pos / 2][pos % 2] = FT(-0.0);
+          if (!(Spline<FT, 1>(Support<FT>(g, w.s, w.e), c3) == Spline<FT, 1>(Support<FT>(g, w.s, w.e), c4))) H.fail("eq", "one coefficient +0 versus -0, all others identical: == is false");
+        }
         if (a == b || !(a != b)) H.fail("eq", "splines whose coefficients differ in the last bit compare equal");
         if (!(a == a) || !(s == s)) H.fail("eq-refl", "a == a is false");
         H.cls(std::string("float-predicates:") + tn);
